@@ -1,1 +1,42 @@
-fn main(){}
+//! frontmon: monitors over the ASN.1 front end (C07 C08 C12 C13 C14 C15 C16 text level).
+mod c07;
+mod c13;
+mod c14;
+mod c15;
+mod common;
+mod proj;
+
+use monitors::report::{Args, Report};
+
+fn main() {
+    let args = Args::parse();
+    let property = args.str("property", "C07");
+    let tier = args.str("tier", "quick");
+    let seed = args.u64("seed", 1);
+    let shard = args.u64("shard", 0);
+    let nshards = args.u64("nshards", 1).max(1);
+    let out = args.str("out", "/dev/stdout");
+    let variant = args.str("variant", "checked");
+    monitors::journal::install();
+    let mut rep = Report::new(&property, &tier, seed, shard, &variant);
+    match property.as_str() {
+        "C07" => c07::run(&mut rep, &tier, seed, shard, nshards),
+        "C13" => c13::run(&mut rep, &tier, seed, shard, nshards),
+        "C14" => c14::run(&mut rep, &tier, seed, shard, nshards),
+        "C15" => c15::run(&mut rep, &tier, seed, shard, nshards),
+        "PARSE" => {
+            let text = std::fs::read_to_string(args.str("file", "/dev/stdin")).unwrap();
+            println!("{:?}", asn1rs::model::parse::Tokenizer.parse(&text));
+            match proj::parse_and_resolve(&text) {
+                Ok(m) => println!("{}", serde_json::to_string_pretty(&proj::a_module(&m)).unwrap()),
+                Err(e) => println!("ERR {:?}", e),
+            }
+            return;
+        }
+        other => {
+            eprintln!("unknown property {}", other);
+            std::process::exit(2);
+        }
+    }
+    rep.write(&out);
+}
